@@ -261,6 +261,19 @@ static void doCall(State &s, Toks &t) {
     double mass; Vector3d com, vel, am;
     Utils::CalcCenterOfMass(m, s.q, s.qd, NULL, mass, com, &vel, NULL, &am, NULL, u != 0);
     o.num(mass); o.v3(com); o.v3(vel); o.v3(am);
+  } else if (name == "COMm") {
+    // any subset of the optional outputs: mask bit 0 com velocity, 1 com acceleration,
+    // 2 angular momentum, 3 change of angular momentum (qddot is passed iff bit 1 or 3)
+    unsigned mask = t.nat(); unsigned u = t.nat();
+    double mass; Vector3d com, vel, acc, am, dam;
+    bool needA = (mask & 2) || (mask & 8);
+    Utils::CalcCenterOfMass(m, s.q, s.qd, needA ? &s.qdd : NULL, mass, com, (mask & 1) ? &vel : NULL,
+                            (mask & 2) ? &acc : NULL, (mask & 4) ? &am : NULL, (mask & 8) ? &dam : NULL, u != 0);
+    o.num(mass); o.v3(com);
+    if (mask & 1) o.v3(vel);
+    if (mask & 2) o.v3(acc);
+    if (mask & 4) o.v3(am);
+    if (mask & 8) o.v3(dam);
   } else if (name == "ZMP") {
     Vector3d n = t.v3(); Vector3d p = t.v3(); unsigned u = t.nat();
     Vector3d zmp;
